@@ -67,7 +67,9 @@ ResetAll ==
   /\ ticked' = [t \in Tasks |-> FALSE]
 
 TraceInit == Init /\ l = 1 /\ skipping = FALSE
-EvStep(e) == Apply(e) /\ Matches(e)
+\* ("blind": the step let go of the slots mutex another task was waiting for; that task went through at once, so
+\*  the state in between could not be looked at - the event is checked as an action only)
+EvStep(e) == Apply(e) /\ (e.blind \/ Matches(e))
 TraceNext ==
   /\ l <= Len(Rec)
   /\ l' = l + 1
